@@ -458,7 +458,7 @@ pub fn get(id: &str, thorough: bool) -> Option<PropDef> {
                 nontrivial: &["peer_op_in_flight_to_victim", "victim_op_in_flight_to_peer", "client_op_in_flight_to_victim"],
                 rule: "2-4 actors exchanging asks/tells with a panic or error injected into a generated hook invocation (on_start, k-th handler, k-th on_run, on_stop) of some actor; all other monitors are applied to the whole system, plus victim-specific checks, a fresh actor spawned afterwards, dead-letter accounting and (full build) wait-for-graph residue; the C12-cyclic profile (ask cycles) is generated only for the build with deadlock detection; distinct by scenario hash; non-trivial iff an operation between the victim and a peer or client was in flight when the victim failed",
                 quick_cases: 12000,
-                thorough_cases: 40000,
+                thorough_cases: 150000,
                 tape_len: 700,
                 log_polls: false,
                 mode: Mode::Single,
@@ -492,7 +492,7 @@ pub fn get(id: &str, thorough: bool) -> Option<PropDef> {
                 nontrivial: &["two_failure_reasons"],
                 rule: "every tell/ask-family operation against actors in every lifecycle state (not started, running, full mailbox, stopping, dead by each cause); dead-letter records captured by an in-process tracing subscriber are matched one-to-one against failed operations (target id, message type name, reason, operation label) and against dead_letter_count(); distinct by scenario hash; non-trivial iff failures of at least two different reasons occurred in the case",
                 quick_cases: 15000,
-                thorough_cases: 50000,
+                thorough_cases: 150000,
                 tape_len: 600,
                 log_polls: false,
                 mode: Mode::Single,
@@ -519,6 +519,7 @@ pub fn get(id: &str, thorough: bool) -> Option<PropDef> {
             p.max_work = 6;
             p.max_delay = 16;
             p.sampler = true;
+            p.max_peer_sends = 3;
             let mut ring = p.clone();
             ring.name = if id == "C14" { "C14-ring" } else { "C15-ring" };
             ring.actors = (3, 5);
@@ -535,7 +536,7 @@ pub fn get(id: &str, thorough: bool) -> Option<PropDef> {
                     nontrivial: &["cycle_len_2", "cycle_len>=3", "cycle_through_lifecycle_hook"],
                     rule: "1-5 actors whose hooks (on_start, handlers, on_run, on_stop) contain sequential directly-awaited asks (ask / ask_with_timeout) to arbitrary peers including themselves; logical wait-for graph rebuilt from the trace; distinct by scenario hash; non-trivial iff a would-be cycle of length >= 2 occurred or a cycle ran through a lifecycle hook",
                     quick_cases: 15000,
-                    thorough_cases: 50000,
+                    thorough_cases: 150000,
                     tape_len: 700,
                     log_polls: false,
                     mode: Mode::Single,
@@ -551,7 +552,7 @@ pub fn get(id: &str, thorough: bool) -> Option<PropDef> {
                     nontrivial: &["reverse_ask_within_2ms_of_reply", "actor_ask_timed_out", "actor_ask_cancelled", "actor_ask_failed", "actor_ask_panicked"],
                     rule: "same topology generator as C14 (statically cyclic, mostly acyclic in time) with timeouts, cancellations (on_run pre-emption), callee deaths and non-actor askers; every deadlock panic must be justified by a chain of unanswered asks in the logical graph; the real wait-for graph (verification hook) is sampled at every odd virtual millisecond (a quiescent instant by construction) and must equal the set of asks in flight; distinct by scenario hash; non-trivial iff B asked A within 2 ms after answering A, or an actor-context ask ended by timeout / cancellation / failure / panic",
                     quick_cases: 15000,
-                    thorough_cases: 50000,
+                    thorough_cases: 150000,
                     tape_len: 700,
                     log_polls: false,
                     mode: Mode::Single,
@@ -623,7 +624,7 @@ pub fn get(id: &str, thorough: bool) -> Option<PropDef> {
                 nontrivial: &["ask_and_timeout_and_nontrivial_end"],
                 rule: "differential across builds: the same generated scenarios (union of the C01-C10 profiles plus peer asks in arbitrary topologies) are executed by harness builds with different rsactor feature sets and by a default-feature reference process; canonical traces (client results with virtual return times, per-actor hook sequences with times, handling order, final ActorResults with the state they carry; process-global ids replaced by scenario indices; log output excluded) must be identical; cases whose default-feature run contains a logical ask cycle are excluded and counted; distinct by scenario hash; non-trivial iff the case contains >=1 ask, >=1 timeout operation and a termination other than an uncontended graceful stop",
                 quick_cases: 6000,
-                thorough_cases: 30000,
+                thorough_cases: 100000,
                 tape_len: 600,
                 log_polls: false,
                 mode: Mode::DiffRef,
@@ -652,7 +653,7 @@ pub fn get(id: &str, thorough: bool) -> Option<PropDef> {
                 nontrivial: &["3_messages_2_durations", "read_after_end"],
                 rule: "message sequences whose handlers really spend a generated 0-1500 us (thread::sleep, measured inside the handler), every termination cause, metrics read through strong, cloned and weak-upgraded handles during and after the run; distinct by scenario hash; non-trivial iff an actor handled >=3 messages with >=2 distinct measured durations, or metrics were read after the actor had ended",
                 quick_cases: 1200,
-                thorough_cases: 8000,
+                thorough_cases: 20000,
                 tape_len: 500,
                 log_polls: false,
                 mode: Mode::Single,
@@ -725,7 +726,7 @@ pub fn get(id: &str, thorough: bool) -> Option<PropDef> {
                 nontrivial: &["two_blocking_callers_overlap", "blocking_timeout_expired", "blocking_with_timeout_waited"],
                 rule: "1-6 clients running as OS threads, spawn_blocking closures or tokio tasks on a multi_thread runtime, issuing blocking_tell/blocking_ask with and without timeout, the deprecated aliases (with a timeout argument that must be ignored) and async calls, against live / slow / gated / full / stopped / dying actors; timeout variants are also called from inside async tasks; oracles restricted to relations that are sound under arbitrary interleaving (logical stamps, multisets, one-sided wall-clock bounds); distinct by scenario hash; non-trivial iff >=2 blocking callers overlapped or a blocking call with a timeout waited or expired",
                 quick_cases: 60,
-                thorough_cases: 500,
+                thorough_cases: 1500,
                 tape_len: 400,
                 log_polls: false,
                 mode: Mode::RealThreads,
